@@ -34,6 +34,7 @@ pub fn run_e1_with(ctx: &Ctx, spec: E1Spec, post: impl FnOnce(&mut Map<String, V
     let mut counters: BTreeMap<String, u64> = BTreeMap::new();
     let mut hangs = 0;
     let mut crashes = 0;
+    let mut stopped_early: Option<String> = None;
     for (id, sp) in &spec.spaces {
         let t0 = std::time::Instant::now();
         let r = run_parent(ctx, id, sp.as_ref(), &spec.cfg);
@@ -58,8 +59,18 @@ pub fn run_e1_with(ctx: &Ctx, spec: E1Spec, post: impl FnOnce(&mut Map<String, V
             samples.push(json!({"space": id, "case": s}));
         }
         violations.extend(r.violations);
+        // iterative bounding: a space whose id starts with "first:" is the cheap low-bound pass of the spaces that
+        // follow it; when it already reports violations the (possibly much larger) higher-bound passes add nothing to
+        // the verdict and are not run
+        if id.starts_with("first:") && !violations.is_empty() {
+            stopped_early = Some(format!("space {} reported violations: the spaces after it were not run", id));
+            break;
+        }
     }
-    if distinct < spec.min_distinct {
+    let mut caps_hit = spec.caps_hit;
+    if let Some(s) = stopped_early {
+        caps_hit.push(s);
+    } else if distinct < spec.min_distinct {
         eprintln!("MACHINERY: vacuous run of {}: only {} distinct non-trivial observations (< {})", ctx.prop, distinct, spec.min_distinct);
         return 2;
     }
@@ -73,7 +84,7 @@ pub fn run_e1_with(ctx: &Ctx, spec: E1Spec, post: impl FnOnce(&mut Map<String, V
     cov.insert("per_space".into(), json!(per_space));
     cov.insert("alphabets".into(), spec.alphabets);
     cov.insert("bounds".into(), spec.bounds);
-    cov.insert("caps_hit".into(), json!(spec.caps_hit));
+    cov.insert("caps_hit".into(), json!(caps_hit));
     cov.insert("counters".into(), json!(counters.clone()));
     if spec.level == "model_checking" {
         let tr = counters.get("transitions").cloned().unwrap_or(evaluations);
